@@ -59,6 +59,7 @@ def xoraclesOfJson (j : Json) : Except String XOracles := do
   pure { base,
          toFloat := fun q => match tf.find? (fun t => decide (t.1 = q)) with | some t => t.2 | none => q,
          parse := fun ty fmt s => match ps.find? (fun t => t.1 == ty ++ "/" ++ fmt && t.2.1 == s) with | some t => t.2.2 | none => none,
+         typeOf := fun t => String.ofList (t.toList.takeWhile (· != ':')),
          format := fun ty fmt t => match fs.find? (fun r => r.1 == ty ++ "/" ++ fmt && r.2.1 == t) with | some r => r.2.2 | none => "?" }
 
 def run (j : Json) : Except String Json := do
